@@ -109,7 +109,7 @@ CHECKS = {
         pkg="./c09", level="exploration",
         runs=[
             dict(name="configs", run="^TestPropSubscriptions$", checks=(2000, 12000), shards=(4, 16)),
-            dict(name="regress", run="^(TestRegress.*|TestRealNATS)$", shards=(1, 1)),
+            dict(name="regress", run="^(TestRegress.*|TestRealNATS|TestRealNATSListenAndServe)$", shards=(1, 1)),
         ],
     ),
     "C11": dict(
